@@ -1,9 +1,13 @@
 /-
-C13 — Token hold time is honoured (station level).
+C13 — Token hold time is honoured (station level; ring level for the timed two-station ring).
 -/
 import ProfiVerif.Model.Station
 import ProfiVerif.Lemmas.StationMark
 import ProfiVerif.Lemmas.StationVisit
+import ProfiVerif.Lemmas.TimedRing2Step
+import ProfiVerif.Lemmas.TimedRingRot
+import ProfiVerif.Lemmas.TimedRingRotN
+import ProfiVerif.Props.C01
 
 namespace PV.C13
 open PV
@@ -199,5 +203,285 @@ example : lateCycles (demoS 10000) [demoApp] [(1000, false, []), (3000, false, [
   decide
 example : ((demoS 10000).poll [demoApp] 1000 false []).casesOn (fun c => hasSend c.calls) (fun _ => false) = true := by
   decide
+
+/-! ## Ring level: the rotation bound of the timed two-station ring with application traffic -/
+
+/-- **Only `do_use_token` writes the hold-time bookkeeping** (`last_token_time`, `end_token_hold_time`).
+For every poll of an online station in one of the states of a running ring (`ActiveIdle`, `CheckTokenPass`,
+`AwaitStatusResponse`, `UseToken`, `AwaitDataResponse`), any time, PHY state, received bytes and
+application scripts (`HoldRel`): outside a token visit both fields are unchanged; in a visit begun at
+`tk` they are unchanged or — first `do_use_token` of the visit — `last_token_time := tk` and the new
+deadline is at most the previous receipt + TTR; a poll that transmits in a visit has recorded the receipt;
+a message cycle is started only before the deadline or as the first cycle of the visit; and the station
+stays in the visit, leaves it, or (passing the token to itself) begins a new one right now. -/
+theorem hold_bookkeeping_only_use_token (s : Station) (apps : Apps) (now : Int) (phy : Bool) (rx : Bytes) (c : Ctx)
+    (hon : s.online = true) (hst : RingState s.st) (h : s.poll apps now phy rx = .ok c) : HoldRel s c now :=
+  poll_holdRel s apps now phy rx c hon hst h
+
+/-- The rotation bound in the configuration constants: `TT + 2·over + bits 33 + P` with the per-station
+overshoot `over` = one longest message cycle (`bits(11·255) + Tslot + P`) + one unanswered GAP request
+(`bits 66 + Tslot + P`) + one token transfer (`⌈33 bit⌉ + P`). -/
+theorem rotation_bound_value (cfg : Cfg) (TT : Nat) :
+    cfg.rot TT = TT + 2 * ((bitsToTime cfg.rate (11 * 255) + cfg.slot + cfg.P) + (cfg.b66 + cfg.slot + cfg.P) +
+      (cfg.ce 2 + cfg.P)) + cfg.b33 + cfg.P := rfl
+
+/-- **One event of the timed two-station ring with application traffic keeps the timing invariant**
+(`TInv`, on top of the ring invariant `NInv` of C01 for a net of two stations): `acc` is the time at which
+the station whose turn it is accepted the token, `Eb` a bound of its hold deadline with
+`Eb ≤ last_token_time(other) + TT`, `acc ≤ last_token_time(other) + TT + over`, and per phase the next
+transmission is due before `max(Eb, acc + bits 33 + P) + cycle` (+ GAP time).  If the polled station accepts
+the token in this poll, the time since its previous receipt is at most `Cfg.rot cfg TT`. -/
+theorem two_station_rotation_step (cfg : Cfg) (hok : cfg.Ok) (hP100 : cfg.P ≤ 100000) (M : List Nat) (adr : Nat → Nat)
+    (n : Net) (v : NView) (h : NInv cfg M adr n v) (TT : Nat) (acc Eb : Int) (t : TInv cfg TT n v acc Eb)
+    (i : Nat) (now : Int) (e : EvOkN cfg n v.tl i now) :
+    ∃ n' v' inc c acc' Eb', n.poll i now = (n', inc, some (.ok c)) ∧ NInv cfg M adr n' v' ∧ v'.tl = now ∧
+      TInv cfg TT n' v' acc' Eb' ∧
+      (∀ st, n.stations[i]? = some st → visitTime st.s.st = none → visitTime c.s.st = some now →
+        now ≤ st.s.lastTokenTime + ((cfg.rot TT : Nat) : Int)) :=
+  rot_step h hok hP100 t i now e
+
+/-- **Rotation bound of the timed two-station ring with application traffic** (ring-level clause of C13).
+Two station models on the byte-accurate bus of `Model/Net.lean`, arbitrary application scripts (`AnsOk AppP`
+as in C01: valid addresses, no FDL status requests), both target rotation times at most `TT`
+(`bits 33 + P ≤ TT`), the ring invariant `NInv` and the timing invariant `TInv` initially, any schedule in
+which every station is polled at least every `P` µs (`SchedN`): every poll returns regularly, and whenever
+a station accepts the token, the time since its previous token receipt — its own `last_token_time`, the
+base of its hold deadline — is at most `TT + 2·over + bits 33 + P` (`rotation_bound_value`).  Collision
+freedom and the synchronisation pause on the same runs are `PV.C01.n_station_ring_run_apps`. -/
+theorem two_station_rotation_bound (cfg : Cfg) (hok : cfg.Ok) (hP100 : cfg.P ≤ 100000) (M : List Nat) (adr : Nat → Nat)
+    (TT : Nat) (n : Net) (v : NView) (acc Eb : Int) (h : NInv cfg M adr n v) (t : TInv cfg TT n v acc Eb)
+    (evs : List (Nat × Int)) (hs : SchedN cfg.P n v.tl evs) : RotRun (cfg.rot TT) n evs :=
+  rot_run hok hP100 M adr TT evs n v acc Eb h t hs
+
+/-! Non-vacuity of the ring-level hypotheses: stations 3 and 5 (indices 0, 1) at 500 kbit/s, TTR = 10000 bit =
+20 ms.  Station 3 passed the token at time 0 and supervises its pass; station 5 accepted it at 70 µs and holds
+it; its application sends an SDN telegram to address 9, then an SRD request to station 3 (a master: not
+answered, times out), then declines.  Both stations received the token for the last time at 0. -/
+def cfgR : Cfg := { rate := 500000, slotBits := 200, P := 100 }
+theorem cfgR_ok : cfgR.Ok := cfgR.ok_of_quarter_slot (by decide) (by decide) (by decide)
+
+def pR3 : Params :=
+  { address := 3, rate := 500000, slotBits := 200, ttrBits := 10000, gapWait := 1, hsa := 10, maxRetry := 1, minTsdrBits := 11 }
+def pR5 : Params := { pR3 with address := 5 }
+def MR : List Nat := [3, 5]
+def adrR (i : Nat) : Nat := MR.getD i 0
+
+open TokenRing in
+def ringR (ts : Nat) : TokenRing :=
+  updateNextPrev { active := Vector.ofFn fun i => decide (i.val ∈ MR), las := .valid, ts := ts, ns := ts, ps := ts }
+
+open TokenRing in
+theorem ringR_view (ts : Nat) (hts : ts ∈ MR) : RingView MR ts (ringR ts) := by
+  refine ⟨⟨by simp [MR], ⟨by decide, trivial⟩, by decide⟩, hts, (updateNextPrev_las _).2, (updateNextPrev_las _).1, ?_,
+    updateNextPrev_nbr _⟩
+  intro a ha
+  unfold ringR
+  rw [updateNextPrev_active]
+  simp [isActive, ha]
+
+theorem ringR_ok (ts : Nat) (hts : ts < 128) : TokenRing.RingOk (ringR ts) := by
+  have := TokenRing.upd_ok { active := Vector.ofFn fun i => decide (i.val ∈ MR), las := .valid, ts := ts, ns := ts, ps := ts }
+    (Vector.ofFn fun i => decide (i.val ∈ MR)) ⟨hts, hts⟩
+  exact this.1
+
+def hRSDN : Header := { da := 9, sa := 5, dsap := none, ssap := none, fc := .request .inactive .sdnLow }
+def hRSRD : Header := { da := 3, sa := 5, dsap := none, ssap := none, fc := .request .first .srdLow }
+def appsR : Apps := [[.send hRSDN [1, 2], .send hRSRD [], .decline]]
+
+theorem appsR_ok : AnsOk AppP appsR ∧ ScriptsOk appsR := by
+  constructor
+  · intro script hs ans ha h pdu he
+    simp only [appsR, List.mem_singleton] at hs
+    subst hs
+    simp only [List.mem_cons, List.mem_nil_iff, or_false] at ha
+    rcases ha with rfl | rfl | rfl
+    · cases he; exact ⟨by decide, by decide, fun fcb hc => by cases hc⟩
+    · cases he; exact ⟨by decide, by decide, fun fcb hc => by cases hc⟩
+    · cases he
+  · intro script hs ans ha h pdu he
+    simp only [appsR, List.mem_singleton] at hs
+    subst hs
+    simp only [List.mem_cons, List.mem_nil_iff, or_false] at ha
+    rcases ha with rfl | rfl | rfl
+    · cases he; decide
+    · cases he; decide
+    · cases he
+
+def sR3 : Station :=
+  { (Station.new pR3) with online := true, st := .checkTokenPass .first, lastBusActivity := some 66, ring := ringR 3 }
+def sR5 : Station :=
+  { (Station.new pR5) with online := true, st := .useToken ⟨70, none⟩ false, lastBusActivity := some 70, ring := ringR 5 }
+
+theorem sR3_inv : Inv sR3 [] := by
+  have h := inv_new pR3 [] (by decide) (by decide) (by intro s hs; cases hs)
+  exact ⟨h.addr, h.hsa, ringR_ok 3 (by decide), fun ho => by simp [sR3] at ho, h.gap, fun a ha => by simp [sR3] at ha,
+    fun a ha => by simp [sR3] at ha, h.app, fun a d ha => by simp [sR3] at ha, h.scripts, by simp [sR3]⟩
+theorem sR5_inv : Inv sR5 appsR := by
+  have h := inv_new pR5 [] (by decide) (by decide) (by intro s hs; cases hs)
+  exact ⟨h.addr, h.hsa, ringR_ok 5 (by decide), fun ho => by simp [sR5] at ho, h.gap, fun a ha => by simp [sR5] at ha,
+    fun a ha => by simp [sR5] at ha, fun _ => by decide, fun a d ha => by simp [sR5] at ha, appsR_ok.2, by simp [sR5]⟩
+
+def tokR : Transmission := { start := 0, sender := 0, bytes := StationGap.tokenBytes 5 3, dropped := false }
+def nsR3 : NetStation := { s := sR3, apps := [], online := true }
+def nsR5 : NetStation := { s := sR5, apps := appsR, online := true }
+def netR : Net := { bus := { rate := 500000, txs := [tokR], seen := [0, 70] }, stations := [nsR3, nsR5] }
+def viewR : NView := { x := 1, sx := nsR5, pre := [], tr := tokR, ph := .hold 70, H := 236, Lo := 136, tl := 70 }
+
+theorem ringCfgR : RingCfg MR adrR 2 :=
+  ⟨⟨by simp [MR], ⟨by decide, trivial⟩, by decide⟩, by decide,
+    (by
+      intro i j hi hj he
+      have hi' : i = 0 ∨ i = 1 := by omega
+      have hj' : j = 0 ∨ j = 1 := by omega
+      rcases hi' with rfl | rfl <;> rcases hj' with rfl | rfl <;> simp [adrR, MR] at he ⊢),
+    by decide, by decide⟩
+
+theorem stokR3 : StOkN cfgR MR nsR3 3 :=
+  ⟨rfl, rfl, (fun s hs => by cases hs), sR3_inv, rfl, rfl, rfl, rfl, ringR_view 3 (by decide), by decide⟩
+theorem stokR5 : StOkN cfgR MR nsR5 5 :=
+  ⟨rfl, rfl, appsR_ok.1, sR5_inv, rfl, rfl, rfl, rfl, ringR_view 5 (by decide), by decide⟩
+
+theorem ninvR : NInv cfgR MR adrR netR viewR := by
+  refine ⟨ringCfgR, by decide, rfl, stokR5, ⟨rfl, rfl, rfl, rfl, List.pairwise_singleton _ _, ?_, ?_⟩, rfl, ?_, ?_, ?_, ?_, ?_,
+    rfl, rfl, ?_⟩
+  · intro t ht; simp only [netR, List.mem_singleton] at ht; subst ht; rfl
+  · intro t ht; simp only [netR, List.mem_singleton] at ht; subst ht
+    exact ⟨0, by decide, rfl, .inl (by decide)⟩
+  · intro o ho; simp only [netR, List.mem_singleton] at ho; subst ho; right; decide
+  · intro l hl o ho hs; simp only [netR, List.mem_singleton] at ho; subst ho; cases hs
+  · intro j hj hjx
+    have : j = 0 := by simp only [netR, viewR, List.length_cons, List.length_nil] at hj hjx; omega
+    subst this
+    refine ⟨nsR3, rfl, stokR3, [tokR], [], false, 66, rfl, ?_, ?_, rfl, Nat.le_refl _, ?_, ?_, rfl, .inr ⟨?_, by decide⟩, ?_, ?_, ?_⟩
+    · intro o ho; simp only [List.mem_singleton] at ho; subst ho; exact .inl rfl
+    · intro t ht; cases ht
+    · intro o ho hs; simp only [netR, List.mem_singleton] at ho; subst ho; decide
+    · intro t rest hrs; cases hrs
+    · intro t ht; cases ht
+    · intro t ht; cases ht
+    · rintro ⟨t, a, hl, hb⟩
+      simp only [netR, List.getLast?_singleton, Option.some.injEq] at hl
+      subst hl
+      have := tokenBytes_adr_inj 5 3 (adrR 0) a (by decide) (by decide) hb
+      exact absurd this (by decide)
+    · simp only [Bool.false_eq_true, if_false]; exact ⟨rfl, by decide⟩
+  · intro j hj
+    have : j = 0 ∨ j = 1 := by simp only [netR, List.length_cons, List.length_nil] at hj; omega
+    rcases this with rfl | rfl <;> decide
+  · intro t ht; simp only [netR, List.mem_singleton] at ht; subst ht; decide
+  · unfold PhaseOkN
+    show _ ∧ _
+    exact ⟨⟨_, _, rfl⟩, rfl, ⟨3, rfl⟩, by decide, by decide, by decide, by decide, by decide, by decide⟩
+
+/-- The timing invariant at the start: accepted at 70, previous receipts at 0, deadline bound `0 + TTR`. -/
+theorem tinvR : TInv cfgR 20000 netR viewR 70 20000 := by
+  refine ⟨rfl, ?_, by decide, ⟨nsR3, rfl, by decide, by decide, by decide⟩, by decide, ?_⟩
+  · intro j st hj
+    have : j = 0 ∨ j = 1 ∨ 2 ≤ j := by omega
+    rcases this with rfl | rfl | h2
+    · cases hj; decide
+    · cases hj; decide
+    · simp [netR, h2] at hj
+  · show TPh cfgR (.hold 70) sR5 _ _ 70 20000
+    exact ⟨rfl, rfl, .inr ⟨by decide, by decide⟩⟩
+
+def evsR : List (Nat × Int) :=
+  [(0, 80), (1, 137), (0, 170), (1, 227), (0, 260), (1, 317), (0, 350), (1, 407), (0, 440), (1, 497), (0, 530),
+   (1, 587), (0, 620), (1, 677), (0, 710)]
+
+example : RotRun (cfgR.rot 20000) netR evsR :=
+  two_station_rotation_bound cfgR cfgR_ok (by decide) MR adrR 20000 netR viewR 70 20000 ninvR tinvR evsR
+    (schedN_of_times _ _ _ _ (by
+      show SchedNT 100 2 [0, 70] 70 evsR
+      simp [SchedNT, evsR]
+      decide))
+
+/-- The bound for this configuration: 20000 + 2·(5610 + 400 + 100 + 132 + 400 + 100 + 66 + 100) + 66 + 100 µs. -/
+example : cfgR.rot 20000 = 33982 := by decide
+
+/-! ## Ring level, any number of stations -/
+
+/-- The N-station bound in the configuration constants: `TT + N·share`, `share = over + bits 33 + P`. -/
+theorem rotationN_bound_value (cfg : Cfg) (TT N : Nat) :
+    cfg.rotN TT N = TT + N * (((bitsToTime cfg.rate (11 * 255) + cfg.slot + cfg.P) + (cfg.b66 + cfg.slot + cfg.P) +
+      (cfg.ce 2 + cfg.P)) + cfg.b33 + cfg.P) := rfl
+
+/-- **One event of the timed N-station ring with application traffic keeps the timing invariant** `TInvN`
+(stations numbered in ascending address order; the listeners' last token receipts are ordered along the ring,
+none later than the holder's acceptance `acc`; the receipt of the listener `d` passes before the holder is at
+most `TT + d·share` older than `acc`; the holder's deadline bound `Eb` is at most any listener's receipt + `TT`;
+plus the station-local part `TCore` as for two stations), and a station that accepts the token does so at most
+`TT + N·share` after its previous receipt. -/
+theorem n_station_rotation_step (cfg : Cfg) (hok : cfg.Ok) (hP100 : cfg.P ≤ 100000) (M : List Nat) (adr : Nat → Nat)
+    (n : Net) (v : NView) (h : NInv cfg M adr n v) (TT : Nat) (acc Eb : Int) (t : TInvN cfg adr TT n v acc Eb)
+    (i : Nat) (now : Int) (e : EvOkN cfg n v.tl i now) :
+    ∃ n' v' inc c acc' Eb', n.poll i now = (n', inc, some (.ok c)) ∧ NInv cfg M adr n' v' ∧ v'.tl = now ∧
+      TInvN cfg adr TT n' v' acc' Eb' ∧
+      (∀ st, n.stations[i]? = some st → visitTime st.s.st = none → visitTime c.s.st = some now →
+        now ≤ st.s.lastTokenTime + ((cfg.rotN TT n.stations.length : Nat) : Int)) :=
+  rotN_step h hok hP100 t i now e
+
+/-- **Rotation bound of the timed N-station ring with application traffic** (ring-level clause of C13, any
+`N ≥ 2`).  `N` station models on the byte-accurate bus of `Model/Net.lean`, numbered in ascending address order,
+arbitrary application scripts (valid addresses, no FDL status requests; requests are not answered and time
+out), all target rotation times at most `TT` (`bits 33 + P ≤ TT`), the ring invariant `NInv` (C01) and the
+timing invariant `TInvN` initially, any schedule in which every station is polled at least every `P` µs: every
+poll returns regularly, and whenever a station accepts the token the time since its previous token receipt
+(its `last_token_time`) is at most `TT + N·(over + bits 33 + P)` (`rotationN_bound_value`). -/
+theorem n_station_rotation_bound (cfg : Cfg) (hok : cfg.Ok) (hP100 : cfg.P ≤ 100000) (M : List Nat) (adr : Nat → Nat)
+    (TT : Nat) (n : Net) (v : NView) (acc Eb : Int) (h : NInv cfg M adr n v) (t : TInvN cfg adr TT n v acc Eb)
+    (evs : List (Nat × Int)) (hs : SchedN cfg.P n v.tl evs) : RotRun (cfg.rotN TT n.stations.length) n evs :=
+  rotN_run hok hP100 M adr TT evs n v acc Eb h t hs
+
+/-! Non-vacuity for N = 3: the three-station example of C01 with application traffic (`net3a`: stations 3, 5, 7;
+station 5 accepted the token at 70 µs; all previous receipts at 0; TTR = 20 ms). -/
+theorem tinv3a : TInvN PV.C01.cfg2 PV.C01.adr3 20000 PV.C01.net3a PV.C01.view3a 70 20000 := by
+  refine ⟨⟨?_, by decide, by decide, ?_⟩, ?_, ?_, ?_, ?_, ?_⟩
+  · intro j st hj
+    have : j = 0 ∨ j = 1 ∨ j = 2 ∨ 3 ≤ j := by omega
+    rcases this with rfl | rfl | rfl | h3
+    · cases hj; decide
+    · cases hj; decide
+    · cases hj; decide
+    · simp [PV.C01.net3a, h3] at hj
+  · show TPh PV.C01.cfg2 (.hold 70) PV.C01.s3b _ _ 70 20000
+    exact ⟨rfl, rfl, .inr ⟨by decide, by decide⟩⟩
+  · intro i j hij hj
+    have hj' : j < 3 := hj
+    have : (i = 0 ∧ j = 1) ∨ (i = 0 ∧ j = 2) ∨ (i = 1 ∧ j = 2) := by omega
+    rcases this with ⟨rfl, rfl⟩ | ⟨rfl, rfl⟩ | ⟨rfl, rfl⟩ <;> decide
+  · intro j j' hj hj' hjx hjx' _
+    have hj3 : j < 3 := hj
+    have hj3' : j' < 3 := hj'
+    have hx1 : j ≠ 1 := hjx
+    have hx1' : j' ≠ 1 := hjx'
+    have : (j = 0 ∨ j = 2) ∧ (j' = 0 ∨ j' = 2) := by omega
+    rcases this with ⟨rfl | rfl, rfl | rfl⟩ <;> decide
+  · intro j hj hjx
+    have hj3 : j < 3 := hj
+    have hx1 : j ≠ 1 := hjx
+    have : j = 0 ∨ j = 2 := by omega
+    rcases this with rfl | rfl <;> decide
+  · intro j hj hjx
+    have hj3 : j < 3 := hj
+    have hx1 : j ≠ 1 := hjx
+    have : j = 0 ∨ j = 2 := by omega
+    rcases this with rfl | rfl <;> decide
+  · intro j hj hjx
+    have hj3 : j < 3 := hj
+    have hx1 : j ≠ 1 := hjx
+    have : j = 0 ∨ j = 2 := by omega
+    rcases this with rfl | rfl <;> decide
+
+example : RotRun (PV.C01.cfg2.rotN 20000 3) PV.C01.net3a PV.C01.evs3 :=
+  n_station_rotation_bound PV.C01.cfg2 PV.C01.cfg2_ok (by decide) PV.C01.M3 PV.C01.adr3 20000 PV.C01.net3a PV.C01.view3a
+    70 20000 PV.C01.ninv3a tinv3a PV.C01.evs3
+    (schedN_of_times _ _ _ _ (by
+      show SchedNT 100 3 [0, 70, 68] 70 PV.C01.evs3
+      simp [SchedNT, PV.C01.evs3]
+      decide))
+
+/-- The bound for this configuration and three stations: 20000 + 3·(6908 + 66 + 100) µs. -/
+example : PV.C01.cfg2.rotN 20000 3 = 41222 := by decide
 
 end PV.C13
